@@ -84,6 +84,71 @@ def spec_at(mod, v, key, py):
     return out
 
 
+def syn_view_spec(R, mod, v, v2, s, desc):
+    """Spec predicate: `view.<SynapseType>` denotes the edges of the current view that have this type (global edge labels)"""
+    typ = mod.edges["type"].to_dict()
+    want = [int(e) for e in v._edges_in_view if typ.get(int(e)) == s]
+    got = [int(e) for e in v2._edges_in_view]
+    R.count("syn-view-spec")
+    if not want and sorted(got) == sorted(int(e) for e in v._edges_in_view):
+        # known finding N8: a type view of a view without that type falls back to the whole view (select(None))
+        if got:
+            R.known_confirmed.append("N8")
+            R.spec_fail(dict(kind="channel-view-without-channel-returns-whole-view"), f"view without {s} edges: `.{s}` returns the whole view (edges {got})", dict(desc, synapse=s), got)
+        return False
+    if sorted(got) != sorted(want):
+        R.spec_fail(dict(kind="synapse-type-view-wrong-edges"), f"`.{s}` on a view with edges {[int(e) for e in v._edges_in_view]} shows edges {got}, denotes {want}",
+                    dict(desc, synapse=s, edges=[(int(r.pre_global_comp_index), int(r.post_global_comp_index), r.type) for r in mod.edges.itertuples()]), got)
+
+
+def syn_battery(R, rng):
+    """deterministic part for synapse-type views: networks whose two synapse types are created INTERLEAVED and whose first edges lie
+    outside the sub-population that is viewed; the type view is taken from restricted parent views (cells, edge selections,
+    global scope) and a parameter is set through it"""
+    comp = jx.Compartment()
+    for trial in range(3):
+        ncell = int(rng.integers(3, 6))
+        net = jx.Network([jx.Cell([jx.Branch([comp] * int(rng.integers(1, 3)))], parents=[-1]) for _ in range(ncell)])
+        n = net.nodes.shape[0]
+        first_of = lambda c: int(net.nodes.index[net.nodes["global_cell_index"] == c][0])
+        pairs = [(ncell - 1, ncell - 2)] + [(int(rng.integers(0, ncell)), int(rng.integers(0, ncell))) for _ in range(int(rng.integers(5, 9)))]
+        for k, (a, b) in enumerate(pairs):
+            t = ["IonotropicSynapse", "TestSynapse"][k % 2] if rng.random() < 0.8 else str(rng.choice(["IonotropicSynapse", "TestSynapse"]))
+            connect(net.select(nodes=[first_of(a)]), net.select(nodes=[first_of(b)]), SYNS[t]())
+        ne = len(net.edges)
+        parents = [("cells", lambda: net.cell(sorted(rng.choice(ncell, size=int(rng.integers(1, ncell)), replace=False).tolist()))),
+                   ("cells-global", lambda: net.scope("global").cell(sorted(rng.choice(ncell, size=int(rng.integers(1, ncell)), replace=False).tolist()))),
+                   ("edges", lambda: net.select(edges=sorted(rng.choice(ne, size=int(rng.integers(1, ne)), replace=False).tolist()))),
+                   ("edge-level", lambda: net.edge(sorted(rng.choice(ne, size=int(rng.integers(1, ne)), replace=False).tolist())))]
+        for (pname, mk) in parents:
+            for s in ("IonotropicSynapse", "TestSynapse"):
+                try:
+                    v = mk()
+                    v2 = getattr(v, s)
+                except (KeyError, ValueError, AttributeError, IndexError) as ex:
+                    R.count("syn-battery:refused"); continue
+                if v2 is None:
+                    continue
+                R.evaluations += 1
+                if syn_view_spec(R, net, v, v2, s, dict(battery=pname, ncell=ncell)) is False:
+                    continue
+                # and a mutator through the type view touches exactly these edges
+                key = {"IonotropicSynapse": "IonotropicSynapse_gS", "TestSynapse": "TestSynapse_gC"}[s]
+                before = net.edges[key].to_numpy().copy()
+                want = [int(e) for e in v._edges_in_view if net.edges.loc[int(e), "type"] == s]
+                try:
+                    v2.set(key, 0.125)
+                except (KeyError, ValueError) as ex:
+                    if want:
+                        R.spec_fail(dict(kind="synapse-type-view-set-refused"), f"`.{s}.set` on a view that contains edges {want} of that type raises {type(ex).__name__}", dict(battery=pname), repr(ex)[:200])
+                    continue
+                after = net.edges[key].to_numpy()
+                changed = [int(i) for i in np.nonzero(~((before == after) | (np.isnan(before) & np.isnan(after))))[0]]
+                if sorted(changed) != sorted(want):
+                    R.spec_fail(dict(kind="synapse-type-view-set-wrong-edges"), f"`.{s}.set` through a restricted view changed edges {changed}, the view denotes {want}", dict(battery=pname), changed)
+                net.edges[key] = before
+
+
 def battery(R, rng, mod, kind, base, n, lines, expected, metas, m):
     """deterministic part: in global scope, narrow to every top-level element and select compartments / branches by slices and ranges
     that span exactly that element, start inside it, or are open-ended; checked against spec_at and sent to the model"""
@@ -166,6 +231,7 @@ def run(args):
               "0-4 synapses of two types) x random chains of 1-4 selections with every index form, both scopes, scope switches mid-chain, loc at 0, 1, "
               "bin boundaries and random values. distinct = distinct (module shape, chain) pairs; non-trivial = chain of >= 2 accepted steps")
     lines, expected, metas = [], [], []
+    syn_battery(R, rng)
     for m in range(nmods):
         mod, kind = build(rng)
         base = base_line(mod, kind)
@@ -257,6 +323,7 @@ def run(args):
                         v2 = getattr(v, s)
                         if v2 is None:
                             raise AttributeError(s)
+                        syn_view_spec(R, mod, v, v2, s, dict(kind=kind, chain=list(ops)))
                     elif choice == "getitem":
                         k = int(rng.integers(1, len(levels) + 2))
                         idx = [rand_idx(rng, 3, v) for _ in range(k)]
